@@ -212,6 +212,7 @@ def run_case(case):
                 {p: float(v) for p, v in M.get_parameter_dictionary().items() if p not in rule_assigned_params})
 
     pre_ifaces = []
+    iface_models = {}
     last_set_params = max([i_ for i_, o_ in enumerate(case["ops"]) if o_[0] == "set_params"] or [-1])
     for oi, op in enumerate(case["ops"]):
         k = op[0]
@@ -269,6 +270,7 @@ def run_case(case):
                 H.py_initialize()
             elif k == "iface":
                 ifaces.append(SafeModelCSimInterface(H) if op[1] == "safe" else ModelCSimInterface(H))
+                iface_models[len(ifaces) - 1] = H
             elif k == "seed":
                 brandom.py_seed_random(op[1])
             elif k == "pickle":
@@ -283,7 +285,23 @@ def run_case(case):
                         simulate(H, kind)
                     else:
                         C["stale_interface_uses"] += 1
-                        simulate(H, kind, itf=ifaces[op[1]])
+                        sd_ = 1 + (oi * 7919) % 100000
+                        brandom.py_seed_random(sd_)
+                        a_ = simulate(H, kind, itf=ifaces[op[1]])
+                        if not lineage and not rule_assigned_params and iface_models.get(op[1]) is H:
+                            # an interface made earlier ON THIS MODEL OBJECT (not on one it was copied from) that the library ACCEPTS (no structural edit since, or none it objects
+                            # to) stands for the model as it is now: same output as an interface of its class made this instant
+                            brandom.py_seed_random(sd_)
+                            b_ = simulate(H, kind, itf=type(ifaces[op[1]])(H))
+                            H.set_params({k_: v_ for k_, v_ in H.get_parameter_dictionary().items()})
+                            C["accepted_old_interface_comparisons"] += 1
+                            if a_.shape != b_.shape:
+                                bad("history-dependence:accepted-old-interface:" + kind, "op %d: an interface built %d operations ago is accepted and returns %r values, one built now %r" % (oi, oi, a_.shape, b_.shape))
+                            elif not (np.allclose(a_, b_, rtol=1e-5, atol=1e-7 * (1.0 + float(np.nanmax(np.abs(b_))) if b_.size else 1.0), equal_nan=True)
+                                      if kind == "det" else np.array_equal(a_, b_, equal_nan=True)):
+                                j_ = int(np.argmax(~np.isclose(a_, b_, rtol=1e-5, atol=1e-9, equal_nan=True).all(axis=1)))
+                                bad("history-dependence:accepted-old-interface:" + kind, "op %d: a %s simulation through an interface built earlier (and accepted) differs from one through an interface built now, same seed (row %d: %r vs %r)" % (
+                                    oi, kind, j_, list(a_[j_][:4]), list(b_[j_][:4])))
                 except RuntimeError as e:
                     if k == "sim_iface" and "no longer valid" in str(e):
                         C["stale_interface_refused"] += 1
